@@ -435,6 +435,10 @@ func startServers(cfg *config.Config, stats metrics.Provider) {
 				lastPorts := []string{}
 				for {
 					time.Sleep(l.Refresh)
+					// do not bring listeners back which proxy.Shutdown has just closed
+					if atomic.LoadInt32(&shuttingDown) > 0 {
+						return
+					}
 					table := route.GetTable()
 					ports := []string{}
 					for target, rts := range table {
